@@ -76,6 +76,7 @@ fn c11_quantile_sorted_unchecked_invalid_quantile() {
 
 // ---- C03 (BOUNDED, n <= 6, u8 elements with ties): the element-level entry points
 fn z_const(_c: Confidence) -> f64 { 1.0 }
+fn z_two(_c: Confidence) -> f64 { 2.0 }
 fn is_sorted(a: &[u8]) -> bool { let mut i = 1; while i < a.len() { if a[i - 1] > a[i] { return false; } i += 1; } true }
 #[kani::proof]
 #[kani::unwind(8)]
@@ -134,4 +135,27 @@ fn c09_quantile_stats_merge_exact() {
     assert!(t == sa + sb);
     assert!((sa + sb) + sc == sa + (sb + sc) && sa + sb == sb + sa && sa + Stats::default() == sa);
     kani::cover!(a > 0);
+}
+
+// C03 (BOUNDED, n = 20 distinct values, any single transposition of the sorted order, low-tail quantile): sizes above the
+// small-slice cutoffs of the std sorting / selection routines, where the lower Wilson rank is 0
+#[kani::proof]
+#[kani::unwind(22)]
+#[kani::stub(crate::stats::z_value, z_two)]
+fn c03_ci_order_independent_n20_bounded() {
+    let mut data: [u8; 20] = [0; 20];
+    let mut i = 0;
+    while i < 20 { data[i] = (3 * i + 1) as u8; i += 1; }
+    let sorted = data;
+    let (a, b): (usize, usize) = (kani::any(), kani::any());
+    kani::assume(a < 20 && b < 20);
+    data.swap(a, b);
+    let c = Confidence::TwoSided(0.5);
+    let q = 0.1;
+    let want = ci_sorted_unchecked(c, &sorted, q);
+    let got = ci(c, &data, q);
+    assert!(matches!((&want, &got), (Ok(x), Ok(y)) if x == y), "result depends on the order of the data (n = 20)");
+    let idx = ci_indices(c, 20, q);
+    assert!(matches!(idx, Ok(Interval::TwoSided(0, _))), "this configuration is meant to exercise rank 0");
+    kani::cover!(a == 0 && b == 19);
 }
